@@ -43,8 +43,8 @@ pub fn run_viz(a: &Args) {
     if let Some(r) = &a.replay {
         // replay: "<dump> | cfg | fam @ req @ hv": recompile from fam / req and render the same configuration
         let parts: Vec<&str> = r.split('|').collect();
-        let cfg: u32 = parts[1].trim().parse().unwrap();
-        let rest: Vec<&str> = parts[2].split('@').collect();
+        let cfg: u32 = parts[parts.len() - 2].trim().parse().unwrap();
+        let rest: Vec<&str> = parts[parts.len() - 1].split('@').collect();
         let (fam, _) = Fam::parse(&rest[0].split_whitespace().collect::<Vec<_>>());
         let req = Req::parse(&rest[1].split_whitespace().collect::<Vec<_>>());
         emit(&mut out, &fam, &req, &[cfg], "replay");
